@@ -565,6 +565,8 @@ theorem mergePercentilesWith_spec (order : Option (List Nat)) (m : Method) (fina
     (hsome : (inputs.filter (fun i => i.N != 0)).flatMap entriesOf ≠ [])
     (h : mergePercentilesWith order m finalq inputs = some (some out)) :
     ∃ (vals cq : List Rat) (total : Rat), Sorted vals ∧ Sorted cq ∧ vals.length = cq.length ∧ 0 < vals.length ∧
+      0 ≤ total ∧
+      (∀ v ∈ vals, ∃ e ∈ (inputs.filter (fun i => i.N != 0)).flatMap entriesOf, e.val = v) ∧
       out = finalq.map fun fq => select m vals cq (fq * total) := by
   unfold mergePercentilesWith at h
   dsimp only at h
@@ -581,25 +583,66 @@ theorem mergePercentilesWith_spec (order : Option (List Nat)) (m : Method) (fina
         rcases hmem e he with h1 | h1
         · exact hnonneg e h1
         · exact absurd h1 hsome
-      refine ⟨entries.map (·.val), cumsum 0 (entries.map (·.cnt)), _, hsv, (cumsum_sorted _ 0 hcnt).1, ?_, ?_, h.symm⟩
+      refine ⟨entries.map (·.val), cumsum 0 (entries.map (·.cnt)), _, hsv, (cumsum_sorted _ 0 hcnt).1, ?_, ?_, ?_, ?_, h.symm⟩
       · rw [length_cumsum]; simp
       · rw [List.length_map, hlen]; exact List.length_pos_iff.mpr hsome
+      · exact Nat.cast_nonneg _
+      · intro v hv
+        obtain ⟨e, he, rfl⟩ := List.mem_map.mp hv
+        rcases hmem e he with h1 | h1
+        · exact ⟨e, h1, rfl⟩
+        · exact absurd h1 hsome
 
-/-- corollary: every output of the executable model lies between the smallest and largest merged value -/
+/-- **Every output of the executable model lies within the data**: it is at least one of the merged input values and
+    at most one of them — hence between the smallest and the largest value handed to `merge_percentiles`
+    (which are the data's own percentiles).  (The former statement `∃ lo hi, ∀ r ∈ out, lo ≤ r ∧ r ≤ hi` held for any
+    finite list and said nothing.) -/
 theorem mergePercentilesWith_within (order : Option (List Nat)) (m : Method) (finalq : List Rat)
     (inputs : List Input) (out : List Rat)
     (hnonneg : ∀ e ∈ (inputs.filter (fun i => i.N != 0)).flatMap entriesOf, 0 ≤ e.cnt)
     (hsome : (inputs.filter (fun i => i.N != 0)).flatMap entriesOf ≠ [])
     (h : mergePercentilesWith order m finalq inputs = some (some out)) :
-    ∃ lo hi : Rat, ∀ r ∈ out, lo ≤ r ∧ r ≤ hi := by
-  obtain ⟨vals, cq, total, hv, hc, hlen, hne, rfl⟩ :=
+    ∀ r ∈ out, (∃ e ∈ (inputs.filter (fun i => i.N != 0)).flatMap entriesOf, e.val ≤ r) ∧
+               (∃ e ∈ (inputs.filter (fun i => i.N != 0)).flatMap entriesOf, r ≤ e.val) := by
+  obtain ⟨vals, cq, total, hv, hc, hlen, hne, _, hmem, rfl⟩ :=
     mergePercentilesWith_spec order m finalq inputs out hnonneg hsome h
-  refine ⟨nth vals 0, nth vals (vals.length - 1), ?_⟩
   intro r hr
   obtain ⟨fq, _, rfl⟩ := List.mem_map.mp hr
-  exact merge_within_minmax hv hc hlen hne m _
+  have W := merge_within_minmax hv hc hlen hne m (fq * total)
+  obtain ⟨e₁, he₁, hv₁⟩ := hmem _ (first_is_min hv hc hlen hne).1
+  obtain ⟨e₂, he₂, hv₂⟩ := hmem _ (last_is_max hv hc hlen hne).1
+  exact ⟨⟨e₁, he₁, by rw [hv₁]; exact W.1⟩, ⟨e₂, he₂, by rw [hv₂]; exact W.2⟩⟩
+
+/-- in particular every output is bounded by any lower / upper bound of the merged input values -/
+theorem mergePercentilesWith_between (order : Option (List Nat)) (m : Method) (finalq : List Rat)
+    (inputs : List Input) (out : List Rat) (lo hi : Rat)
+    (hnonneg : ∀ e ∈ (inputs.filter (fun i => i.N != 0)).flatMap entriesOf, 0 ≤ e.cnt)
+    (hsome : (inputs.filter (fun i => i.N != 0)).flatMap entriesOf ≠ [])
+    (hb : ∀ e ∈ (inputs.filter (fun i => i.N != 0)).flatMap entriesOf, lo ≤ e.val ∧ e.val ≤ hi)
+    (h : mergePercentilesWith order m finalq inputs = some (some out)) :
+    ∀ r ∈ out, lo ≤ r ∧ r ≤ hi := by
+  intro r hr
+  obtain ⟨⟨e₁, he₁, h₁⟩, ⟨e₂, he₂, h₂⟩⟩ := mergePercentilesWith_within order m finalq inputs out hnonneg hsome h r hr
+  exact ⟨le_trans (hb e₁ he₁).1 h₁, le_trans h₂ (hb e₂ he₂).2⟩
+
+/-- **The executable model is monotone in q**: for a non-decreasing `finalq` the outputs are non-decreasing. -/
+theorem mergePercentilesWith_monotone (order : Option (List Nat)) (m : Method) (finalq : List Rat)
+    (inputs : List Input) (out : List Rat)
+    (hnonneg : ∀ e ∈ (inputs.filter (fun i => i.N != 0)).flatMap entriesOf, 0 ≤ e.cnt)
+    (hsome : (inputs.filter (fun i => i.N != 0)).flatMap entriesOf ≠ [])
+    (hq : Sorted finalq)
+    (h : mergePercentilesWith order m finalq inputs = some (some out)) : Sorted out := by
+  obtain ⟨vals, cq, total, hv, hc, hlen, hne, htot, _, rfl⟩ :=
+    mergePercentilesWith_spec order m finalq inputs out hnonneg hsome h
+  unfold Sorted at hq ⊢
+  rw [List.pairwise_map]
+  exact hq.imp fun {a b} hab => merge_monotone_in_q hv hc hlen hne m (mul_le_mul_of_nonneg_right hab htot)
 
 /-! ## Non-vacuity and the pre-fix witnesses -/
+
+/-- non-vacuity of the executable corollaries: two inputs (one of them with N = 0, dropped), q = [0, 50, 100] -/
+example : mergePercentilesWith none .linear [0, 1/2, 1] [⟨[0, 1/2, 1], [1, 2, 5], 4⟩, ⟨[0, 1], [7, 9], 0⟩, ⟨[0, 1/2, 1], [0, 2, 3], 2⟩]
+    = some (some [0, 2, 5]) := by decide +kernel
 
 /-- the hypotheses are satisfiable with ties and zero weights (DESIGN §6 #18 shape) -/
 example : Sorted [0, 1, 1, 3] ∧ Sorted ([0, 0, 100, 300] : List Rat) := by
